@@ -98,6 +98,7 @@ def spellings(tier, seed):
                         else:
                             desc.append(x)
                     si, so, se = desc
+                    shared = streams[1] is streams[2]
                     f = lambda m: ("file", "T", m)
                     expect = {
                         ("in", "r", "file"): (f("r"), None, None),
@@ -114,6 +115,9 @@ def spellings(tier, seed):
                         obs = "spelling %r of the tokenizer has no documented meaning (%r) but is accepted as %r" % (sp, cls, desc)
                     elif (si, so, se) != expect:
                         obs = "%r decodes to stdin=%r stdout=%r stderr=%r, its stream names say %r" % (sp, si, so, se, expect)
+                    elif cls[0] == "all" and cls[2] == "file" and not shared:
+                        obs = ("%r opens the target twice: stdout and stderr get separate handles with separate offsets, so in truncate mode the two streams "
+                               "overwrite each other instead of both ending up in the file" % sp)
             except Exception as e:  # noqa
                 obs = "%r raised %s: %s" % (sp, type(e).__name__, e)
             if obs and len(failures) < 6:
